@@ -15,7 +15,7 @@ CONF = {
     'C01': dict(
         inv=['InvC01', 'InvViews'],
         mc=[('base', ENV_ALL, None), ('failure', ['Submit', 'RemoveApp', 'Down', 'Up', 'Freeze', 'RemoveServer', 'AddServer', 'Tick', 'SetPrio'], None)],
-        gen=['base', 'failure', 'affinity', 'identity'], weights=['pressure', 'failure'],
+        gen=['base', 'failure', 'affinity', 'identity', 'huge'], weights=['pressure', 'failure'],
         rule='a history counts when at least one cycle ends with an instance placed; distinct = distinct environment histories'),
     'C02': dict(
         inv=['InvC02', 'InvViews'],
@@ -116,7 +116,7 @@ def _gen(ctx, prop):
     return out
 
 
-L2_PROPS = {'C01': 160, 'C03': 120, 'C05': 100, 'C08': 100, 'C06': 120, 'C07': 40}
+L2_PROPS = {'C01': 160, 'C03': 120, 'C04': 80, 'C05': 100, 'C08': 100, 'C06': 120, 'C07': 40}
 
 
 def _l2_traces(ctx, prop, histories=None):
